@@ -190,3 +190,513 @@ Proof.
   change (del_all (c :: cs) d) with (del_all cs (del c d)) in H. apply IH in H. apply in_keys_del in H. tauto.
 Qed.
 End DictMore.
+
+(* ================= Part 2: name map ================= *)
+Definition multi_keys (nm : name_map) : list Z :=
+  flat_map (fun kv => match snd kv with Multi _ => [fst kv] | Single _ => [] end) nm.
+Definition targets (nm : name_map) : list Z := map fst (flatten nm).
+
+Lemma targets_cons k s r : targets ((k, s) :: r) = match s with Single _ => [k] | Multi cs => cs end ++ targets r.
+Proof.
+  unfold targets, flatten. cbn [flat_map]. rewrite map_app. f_equal. unfold flatten_entry. cbn [fst snd].
+  destruct s as [c|cs]; [reflexivity|]. rewrite map_map. cbn. apply map_id.
+Qed.
+
+Lemma perm_clean nm : Permutation (keys nm ++ multi_cols nm) (multi_keys nm ++ targets nm).
+Proof.
+  induction nm as [|[k s] r IH]; [constructor|]. rewrite targets_cons.
+  unfold multi_cols, multi_keys in *. cbn [keys map fst flat_map snd]. fold (keys r).
+  destruct s as [c|cs]; cbn [app].
+  - apply Permutation_cons_app. exact IH.
+  - apply perm_skip. apply Permutation_app_middle. exact IH.
+Qed.
+
+Lemma in_flatten_single k c nm : In (k, Single c) nm -> In (k, c) (flatten nm).
+Proof. intros H. unfold flatten. apply in_flat_map. exists (k, Single c). split; [exact H|now left]. Qed.
+Lemma in_flatten_multi k cs c nm : In (k, Multi cs) nm -> In c cs -> In (c, c) (flatten nm).
+Proof.
+  intros H Hc. unfold flatten. apply in_flat_map. exists (k, Multi cs). split; [exact H|].
+  unfold flatten_entry. cbn. apply in_map_iff. now exists c.
+Qed.
+Lemma in_multi_keys k cs nm : In (k, Multi cs) nm -> In k (multi_keys nm).
+Proof. intros H. unfold multi_keys. apply in_flat_map. exists (k, Multi cs). split; [exact H|now left]. Qed.
+Lemma in_multi_cols k cs c nm : In (k, Multi cs) nm -> In c cs -> In c (multi_cols nm).
+Proof. intros H Hc. unfold multi_cols. apply in_flat_map. exists (k, Multi cs). split; [exact H|exact Hc]. Qed.
+Lemma in_targets_inv x nm : In x (targets nm) -> (exists c, In (x, Single c) nm) \/ In x (multi_cols nm).
+Proof.
+  induction nm as [|[k s] r IH]; [intros []|]. rewrite targets_cons. intros H. apply in_app_or in H.
+  destruct H as [H|H].
+  - destruct s as [c|cs]; [destruct H as [->|[]]; left; exists c; now left|].
+    right. unfold multi_cols. cbn. apply in_or_app. now left.
+  - destruct (IH H) as [[c Hc]|Hm]; [left; exists c; now right|]. right. unfold multi_cols in *. cbn. apply in_or_app. now right.
+Qed.
+
+(* what NoDup (keys ++ multi_cols) gives *)
+Lemma clean_facts nm : NoDup (keys nm ++ multi_cols nm) ->
+  NoDup (keys nm) /\ NoDup (targets nm) /\ (forall k, In k (multi_keys nm) -> ~ In k (targets nm))
+  /\ (forall k, In k (keys nm) -> ~ In k (multi_cols nm)).
+Proof.
+  intros H. pose proof (Permutation_NoDup (perm_clean nm) H) as H'.
+  apply NoDup_app_iff in H. apply NoDup_app_iff in H'. tauto.
+Qed.
+
+Lemma preprocess_id nm : haskey k_pos nm = true -> forallb nonempty_src nm = true -> preprocess nm = nm.
+Proof. intros H1 H2. unfold preprocess, legacy_pos. rewrite H1. now apply filter_forallb_id. Qed.
+
+Lemma is_single_inv nm k : is_single (lookup k nm) = true -> lookup k nm = Some (Single (single_col nm k)).
+Proof. unfold single_col. destruct (lookup k nm) as [[c|cs]|]; cbn; congruence. Qed.
+
+Lemma wf_map_inv cols nm : wf_map cols nm = true ->
+  NoDup (keys nm ++ multi_cols nm) /\
+  lookup k_id nm = Some (Single (id_col nm)) /\ lookup k_parent nm = Some (Single (par_col nm)) /\
+  haskey k_time nm = true /\
+  (exists pcs, lookup k_pos nm = Some (Multi pcs) /\ (2 <= length pcs)%nat /\
+               forall s, lookup k_ell nm = Some s -> exists cs, s = Multi cs /\ length cs = length pcs) /\
+  forallb nonempty_src nm = true /\
+  (forall k s c, In (k, s) nm -> In c (sources s) -> In c cols).
+Proof.
+  unfold wf_map. rewrite !andb_true_iff. intros [[[[[[H1 H2] H3] H4] H5] H6] H7].
+  split; [now apply nodup_z_NoDup|]. split; [now apply is_single_inv|]. split; [now apply is_single_inv|].
+  split; [exact H4|]. split.
+  - destruct (lookup k_pos nm) as [[c|pcs]|]; try discriminate. apply andb_true_iff in H5. destruct H5 as [Ha Hb].
+    exists pcs. split; [reflexivity|]. split; [now apply Nat.leb_le|]. intros s Hs. rewrite Hs in Hb.
+    destruct s as [c|cs]; [discriminate|]. exists cs. split; [reflexivity|now apply Nat.eqb_eq].
+  - split; [exact H6|]. intros k s c Hin Hc. rewrite forallb_forall in H7. specialize (H7 _ Hin). cbn in H7.
+    rewrite forallb_forall in H7. apply memz_In. now apply H7.
+Qed.
+
+Lemma memz_sd k : memz k sd_keys = (k =? k_pos) || (k =? k_ell).
+Proof. unfold memz, sd_keys. cbn. now rewrite orb_false_r. Qed.
+
+Lemma wf_map_validate cols nm req : wf_map cols nm = true -> (forall k, In k req -> In k [k_time; k_id; k_parent]) ->
+  validate_name_map req cols (ndim_of_map nm) nm = true.
+Proof.
+  intros Hwf Hreq. destruct (wf_map_inv _ _ Hwf) as [Hnd [Hid [Hpar [Htime [[pcs [Hpos [Hlen Hell]]] [Hne Hsrc]]]]]].
+  destruct (clean_facts _ Hnd) as [Hk _].
+  unfold validate_name_map. rewrite !andb_true_iff. repeat split.
+  - unfold required_ok. apply forallb_forall. intros k Hk'. apply Hreq in Hk'. cbn in Hk'.
+    destruct Hk' as [<-|[<-|[<-|[]]]]; [exact Htime| |]; unfold haskey; [rewrite Hid|rewrite Hpar]; reflexivity.
+  - unfold pos_ok. rewrite Hpos. now apply Nat.leb_le.
+  - unfold sources_ok. destruct cols as [|c0 cols]; [reflexivity|]. apply forallb_forall. intros [k s] Hin. cbn [snd].
+    apply forallb_forall. intros c Hc. apply memz_In. eapply Hsrc; eauto.
+  - unfold spatial_map_ok, ndim_of_map. rewrite Hpos. apply forallb_forall. intros [k s] Hin.
+    unfold spatial_entry_ok. cbn [andb fst snd]. rewrite memz_sd. replace (S (length pcs) - 1)%nat with (length pcs) by lia.
+    destruct (Z.eqb_spec k k_pos) as [->|Hn1]; cbn [orb negb].
+    + rewrite (In_lookup _ _ _ Hk Hin) in Hpos. injection Hpos as ->. apply Nat.eqb_refl.
+    + destruct (Z.eqb_spec k k_ell) as [->|Hn2]; cbn [negb]; [|reflexivity].
+      destruct (Hell s (In_lookup _ _ _ Hk Hin)) as [cs [-> Hl]]. now apply Nat.eqb_eq.
+Qed.
+
+(* ================= Part 3: the renaming loop ================= *)
+Definition renamed (srcp : props) (nm : name_map) : props :=
+  map (fun ts => (fst ts, getd (snd ts) srcp no_prop)) (flatten nm).
+
+Lemma rename_fold srcp l : forall acc, NoDup (keys acc ++ map fst l) ->
+  (forall ts, In ts l -> In (snd ts) (keys srcp)) ->
+  fold_left (rename_step srcp) l acc = acc ++ map (fun ts => (fst ts, getd (snd ts) srcp no_prop)) l.
+Proof.
+  induction l as [|[t0 s0] l IH]; intros acc Hnd Hsrc; cbn [fold_left map]; [now rewrite app_nil_r|].
+  destruct (In_lookup_exists s0 srcp (Hsrc (t0, s0) (or_introl eq_refl))) as [p Hp].
+  unfold rename_step at 2. cbn [fst snd]. rewrite Hp.
+  assert (Hf : haskey t0 acc = false).
+  { apply haskey_false. cbn [map fst] in Hnd. apply NoDup_remove_2 in Hnd. intros Hi. apply Hnd, in_or_app. now left. }
+  rewrite Hf, (set_fresh t0 p acc) by (now apply haskey_false). rewrite IH.
+  - rewrite <- app_assoc. cbn [app fst snd]. unfold getd at 2. now rewrite Hp.
+  - rewrite keys_app. cbn [keys map fst]. rewrite <- app_assoc. exact Hnd.
+  - intros ts Hts. apply Hsrc. now right.
+Qed.
+
+Lemma rename_clean srcp nm : NoDup (targets nm) -> (forall ts, In ts (flatten nm) -> In (snd ts) (keys srcp)) ->
+  rename srcp nm = renamed srcp nm.
+Proof. intros H1 H2. unfold rename. rewrite rename_fold; [reflexivity|exact H1|exact H2]. Qed.
+
+Lemma keys_renamed srcp nm : keys (renamed srcp nm) = targets nm.
+Proof. unfold keys, renamed, targets. rewrite map_map. reflexivity. Qed.
+
+Lemma lookup_renamed srcp nm k c : NoDup (targets nm) -> In (k, c) (flatten nm) ->
+  lookup k (renamed srcp nm) = Some (getd c srcp no_prop).
+Proof.
+  intros Hnd Hin. apply In_lookup; [now rewrite keys_renamed|].
+  unfold renamed. apply in_map_iff. exists (k, c). split; [reflexivity|exact Hin].
+Qed.
+
+(* ================= Part 4: _combine_multi_value_props ================= *)
+Lemma comb_of_ext ps ps' cs : (forall c, In c cs -> lookup c ps = lookup c ps') -> comb_of ps cs = comb_of ps' cs.
+Proof.
+  intros H. unfold comb_of. assert (E : map (fun c => getd c ps no_prop) cs = map (fun c => getd c ps' no_prop) cs).
+  { apply map_ext_in. intros c Hc. unfold getd. now rewrite (H c Hc). }
+  now rewrite E.
+Qed.
+
+Lemma fold_del_skip k cs (d : props) : ~ In k cs ->
+  fold_left (fun acc c => if c =? k then acc else del c acc) cs d = del_all cs d.
+Proof.
+  revert d. induction cs as [|c cs IH]; intros d H; [reflexivity|]. cbn [fold_left].
+  destruct (Z.eqb_spec c k) as [->|Hn]; [exfalso; apply H; now left|].
+  change (del_all (c :: cs) d) with (del_all cs (del c d)). apply IH. intros Hi. apply H. now right.
+Qed.
+
+Lemma combine_entry_multi ps k c0 cs0 : forallb (fun c => haskey c ps) (c0 :: cs0) = true -> ~ In k (c0 :: cs0) ->
+  combine_entry ps (k, Multi (c0 :: cs0)) = del_all (c0 :: cs0) (set k (comb_of ps (c0 :: cs0)) ps).
+Proof. intros H1 H2. unfold combine_entry. cbn [snd fst]. rewrite H1. now apply fold_del_skip. Qed.
+
+Definition final_spec (ps : props) (todo : name_map) (x : Z) : option prop :=
+  match lookup x todo with
+  | Some (Multi (c :: cs)) => Some (comb_of ps (c :: cs))
+  | _ => if memz x (multi_cols todo) then None else lookup x ps
+  end.
+
+Lemma memz_app x l1 l2 : memz x (l1 ++ l2) = memz x l1 || memz x l2.
+Proof. unfold memz. apply existsb_app. Qed.
+
+Lemma multi_cols_cons k s r : multi_cols ((k, s) :: r) = match s with Multi cs => cs | Single _ => [] end ++ multi_cols r.
+Proof. reflexivity. Qed.
+
+Lemma combine_multi_lookup todo : forall ps, NoDup (keys todo ++ multi_cols todo) ->
+  (forall k cs c, In (k, Multi cs) todo -> In c cs -> In c (keys ps)) ->
+  forall x, lookup x (combine_multi todo ps) = final_spec ps todo x.
+Proof.
+  induction todo as [|[k s] r IH]; intros ps Hnd Hsrc x; [reflexivity|].
+  unfold combine_multi in *. cbn [fold_left].
+  rewrite multi_cols_cons in Hnd. cbn [keys map fst] in Hnd. fold (keys r) in Hnd.
+  inversion Hnd as [|? ? Hk Hnd']; subst.
+  assert (Hskip : forall ps0, (match s with Multi (_ :: _) => False | _ => True end) ->
+            (forall k cs c, In (k, Multi cs) r -> In c cs -> In c (keys ps0)) ->
+            NoDup (keys r ++ multi_cols r) -> ~ In k (keys r ++ multi_cols r) ->
+            lookup x (fold_left combine_entry r ps0) = final_spec ps0 ((k, s) :: r) x).
+  { intros ps0 Hs Hsrc0 Hnd0 Hk0. rewrite IH by assumption. unfold final_spec. cbn [lookup].
+    rewrite multi_cols_cons.
+    assert (Em : memz x ((match s with Multi cs => cs | Single _ => [] end) ++ multi_cols r) = memz x (multi_cols r)).
+    { destruct s as [c|[|c cs]]; try reflexivity. contradiction. }
+    rewrite Em. destruct (Z.eqb_spec x k) as [->|Hn]; [|reflexivity].
+    assert (El : lookup k r = None) by (apply lookup_None_keys; intros Hi; apply Hk0, in_or_app; now left).
+    rewrite El. destruct s as [c|[|c cs]]; try reflexivity. contradiction. }
+  destruct s as [c|[|c0 cs0]].
+  - (* single *) cbn [combine_entry snd]. apply Hskip; [exact I| |exact Hnd'|exact Hk].
+    intros k' cs' c' Hin Hc. eapply Hsrc; [right; exact Hin|exact Hc].
+  - (* empty list *) cbn [combine_entry snd]. apply Hskip; [exact I| |exact Hnd'|exact Hk].
+    intros k' cs' c' Hin Hc. eapply Hsrc; [right; exact Hin|exact Hc].
+  - (* list *)
+    set (cs := c0 :: cs0) in *.
+    assert (Hall : forallb (fun c => haskey c ps) cs = true).
+    { apply forallb_forall. intros c Hc. apply haskey_keys. eapply Hsrc; [left; reflexivity|exact Hc]. }
+    apply NoDup_app_iff in Hnd'. destruct Hnd' as [Hkr [Hmc Hdis]].
+    apply NoDup_app_iff in Hmc. destruct Hmc as [Hcs [Hmr Hdis2]].
+    assert (Hkcs : ~ In k cs) by (intros Hi; apply Hk, in_or_app; right; apply in_or_app; now left).
+    unfold cs at 1. rewrite combine_entry_multi by assumption. fold cs.
+    set (ps' := del_all cs (set k (comb_of ps cs) ps)).
+    assert (Hlk : forall y, y <> k -> ~ In y cs -> lookup y ps' = lookup y ps).
+    { intros y Hy Hyc. unfold ps'. rewrite lookup_del_all. apply memz_false in Hyc. rewrite Hyc. now apply lookup_set_neq. }
+    assert (Hnd2 : NoDup (keys r ++ multi_cols r)).
+    { apply NoDup_app_iff. repeat split; [exact Hkr|exact Hmr|]. intros y Hy Hy2. apply (Hdis y Hy), in_or_app. now right. }
+    assert (Hsrc2 : forall k' cs' c', In (k', Multi cs') r -> In c' cs' -> In c' (keys ps')).
+    { intros k' cs' c' Hin Hc. assert (Hm : In c' (multi_cols r)) by (eapply in_multi_cols; eauto).
+      assert (In c' (keys ps)) as Hi by (eapply Hsrc; [right; exact Hin|exact Hc]).
+      destruct (In_lookup_exists _ _ Hi) as [p Hp]. eapply lookup_Some_keys. rewrite Hlk; [exact Hp| |].
+      - intros ->. apply Hk, in_or_app. right. apply in_or_app. now right.
+      - intros Hi2. exact (Hdis2 _ Hi2 Hm). }
+    rewrite (IH ps' Hnd2 Hsrc2 x). unfold final_spec. cbn [lookup]. rewrite multi_cols_cons, memz_app.
+    destruct (Z.eqb_spec x k) as [->|Hn].
+    + assert (El : lookup k r = None) by (apply lookup_None_keys; intros Hi; apply Hk, in_or_app; now left).
+      rewrite El. assert (Em : memz k (multi_cols r) = false).
+      { apply memz_false. intros Hi. apply Hk, in_or_app. right. apply in_or_app. now right. }
+      rewrite Em. unfold ps'. rewrite lookup_del_all. apply memz_false in Hkcs. rewrite Hkcs. apply lookup_set_eq.
+    + destruct (lookup x r) as [[c|[|c' cs']]|] eqn:El.
+      1,2,4: destruct (memz x (multi_cols r)); [now rewrite orb_true_r|]; rewrite orb_false_r;
+        unfold ps'; rewrite lookup_del_all; destruct (memz x cs); [reflexivity|now apply lookup_set_neq].
+      f_equal. symmetry. apply comb_of_ext. intros c Hc. symmetry.
+      assert (Hm : In c (multi_cols r)) by (eapply in_multi_cols; [eapply lookup_In; exact El|exact Hc]).
+      apply Hlk.
+      * intros ->. apply Hk, in_or_app. right. apply in_or_app. now right.
+      * intros Hi2. exact (Hdis2 _ Hi2 Hm).
+Qed.
+
+Lemma combine_entry_keys ps kv x : In x (keys (combine_entry ps kv)) -> In x (keys ps) \/ x = fst kv.
+Proof.
+  unfold combine_entry. destruct (snd kv) as [c|[|c0 cs0]]; try tauto.
+  destruct (forallb _ _); [|tauto].
+  assert (G : forall cs (d : props), In x (keys (fold_left (fun acc c => if c =? fst kv then acc else del c acc) cs d)) -> In x (keys d)).
+  { induction cs as [|c cs IHc]; intros d H; [exact H|]. cbn [fold_left] in H. apply IHc in H.
+    destruct (c =? fst kv); [exact H|]. apply in_keys_del in H. tauto. }
+  intros H. apply G in H. apply in_keys_set in H. tauto.
+Qed.
+Lemma combine_entry_nodup ps kv : NoDup (keys ps) -> NoDup (keys (combine_entry ps kv)).
+Proof.
+  unfold combine_entry. destruct (snd kv) as [c|[|c0 cs0]]; try tauto.
+  destruct (forallb _ _); [|tauto].
+  assert (G : forall cs (d : props), NoDup (keys d) -> NoDup (keys (fold_left (fun acc c => if c =? fst kv then acc else del c acc) cs d))).
+  { induction cs as [|c cs IHc]; intros d H; [exact H|]. cbn [fold_left]. apply IHc.
+    destruct (c =? fst kv); [exact H|]. now apply NoDup_keys_del. }
+  intros H. apply G. now apply NoDup_keys_set.
+Qed.
+Lemma combine_multi_keys todo : forall ps x, In x (keys (combine_multi todo ps)) -> In x (keys ps) \/ In x (keys todo).
+Proof.
+  induction todo as [|kv r IH]; intros ps x H; [now left|]. unfold combine_multi in *. cbn [fold_left] in H.
+  apply IH in H. destruct H as [H|H]; [|right; now right]. apply combine_entry_keys in H.
+  destruct H as [H|H]; [now left|]. right. left. now symmetry.
+Qed.
+Lemma combine_multi_nodup todo : forall ps, NoDup (keys ps) -> NoDup (keys (combine_multi todo ps)).
+Proof.
+  induction todo as [|kv r IH]; intros ps H; [exact H|]. unfold combine_multi in *. cbn [fold_left].
+  apply IH. now apply combine_entry_nodup.
+Qed.
+
+(* ================= Part 5: construct, drop_invalid, column_stack ================= *)
+Lemma lookup_app {V} k (a b : dict V) : lookup k (a ++ b) = match lookup k a with Some v => Some v | None => lookup k b end.
+Proof. induction a as [|[k' v'] a IH]; cbn; [reflexivity|]. destruct (Z.eqb k k'); [reflexivity|exact IH]. Qed.
+
+Lemma construct_nodes_fst ps ids : forall i, map fst (construct_nodes ps i ids) = ids.
+Proof. induction ids as [|x r IH]; intros i; cbn; [reflexivity|]. now rewrite IH. Qed.
+
+Lemma construct_nodes_nth ps ids : forall i j x, nth_error ids j = Some x ->
+  nth_error (construct_nodes ps i ids) j = Some (x, node_attrs ps (i + j)).
+Proof.
+  induction ids as [|y r IH]; intros i j x H; [destruct j; discriminate|].
+  destruct j as [|j]; cbn in *.
+  - injection H as ->. now rewrite Nat.add_0_r.
+  - rewrite (IH (S i) j x H). do 3 f_equal. lia.
+Qed.
+
+Lemma node_attrs_keys ps i x : In x (keys (node_attrs ps i)) -> In x (keys ps).
+Proof.
+  induction ps as [|[k p] r IH]; [intros []|]. unfold node_attrs in *. cbn [flat_map fst snd]. rewrite keys_app.
+  intros H. apply in_app_or in H. destruct H as [H|H]; [|right; now apply IH].
+  destruct (value_at p i); [|destruct H]. destruct H as [<-|[]]. now left.
+Qed.
+
+Lemma lookup_node_attrs ps i k : NoDup (keys ps) ->
+  lookup k (node_attrs ps i) = match lookup k ps with Some p => value_at p i | None => None end.
+Proof.
+  induction ps as [|[k' p] r IH]; intros Hnd; [reflexivity|].
+  inversion Hnd as [|? ? Hn Hd]; subst.
+  change (node_attrs ((k', p) :: r) i) with
+    ((match value_at p i with Some v => [(k', v)] | None => [] end) ++ node_attrs r i).
+  rewrite lookup_app. cbn [lookup]. destruct (Z.eqb_spec k k') as [->|Hne].
+  - destruct (value_at p i) as [v|]; cbn [lookup]; [now rewrite Z.eqb_refl|].
+    apply lookup_None_keys. intros Hi. apply Hn. now apply node_attrs_keys in Hi.
+  - destruct (value_at p i) as [v|]; cbn [lookup].
+    + destruct (Z.eqb_spec k k'); [contradiction|]. now apply IH.
+    + now apply IH.
+Qed.
+
+Lemma drop_invalid_lookup trk lin ps k : (k = k_track -> trk = true) -> (k = k_lineage -> lin = true) ->
+  lookup k (drop_invalid trk lin ps) = lookup k ps.
+Proof.
+  intros H1 H2. unfold drop_invalid.
+  set (ps1 := if haskey k_track ps && negb trk then del k_track ps else ps).
+  assert (E1 : lookup k ps1 = lookup k ps).
+  { unfold ps1. destruct (haskey k_track ps && negb trk) eqn:E; [|reflexivity].
+    apply lookup_del_neq. intros ->. rewrite (H1 eq_refl) in E. now rewrite andb_false_r in E. }
+  destruct (haskey k_lineage ps1 && negb lin) eqn:E; [|exact E1]. rewrite lookup_del_neq; [exact E1|].
+  intros ->. rewrite (H2 eq_refl) in E. now rewrite andb_false_r in E.
+Qed.
+Lemma drop_invalid_keys trk lin ps x : In x (keys (drop_invalid trk lin ps)) -> In x (keys ps).
+Proof.
+  unfold drop_invalid. set (ps1 := if haskey k_track ps && negb trk then del k_track ps else ps).
+  assert (E1 : In x (keys ps1) -> In x (keys ps)).
+  { unfold ps1. destruct (haskey k_track ps && negb trk); [|tauto]. intros H. apply in_keys_del in H. tauto. }
+  destruct (haskey k_lineage ps1 && negb lin); [|exact E1]. intros H. apply in_keys_del in H. tauto.
+Qed.
+Lemma drop_invalid_nodup trk lin ps : NoDup (keys ps) -> NoDup (keys (drop_invalid trk lin ps)).
+Proof.
+  intros H. unfold drop_invalid. set (ps1 := if haskey k_track ps && negb trk then del k_track ps else ps).
+  assert (E1 : NoDup (keys ps1)) by (unfold ps1; destruct (haskey k_track ps && negb trk); [now apply NoDup_keys_del|exact H]).
+  destruct (haskey k_lineage ps1 && negb lin); [now apply NoDup_keys_del|exact E1].
+Qed.
+
+Lemma hstack_map {A} (rows : list A) (f : A -> list cell) (g : A -> cell) :
+  hstack (map f rows) (map (fun c => [c]) (map g rows)) = map (fun r => f r ++ [g r]) rows.
+Proof. induction rows as [|r rows IH]; cbn; [reflexivity|]. now rewrite IH. Qed.
+
+Lemma nth_map_error {A B} (f : A -> B) l : forall i r d, nth_error l i = Some r -> nth i (map f l) d = f r.
+Proof.
+  induction l as [|x l IH]; intros i r d H; destruct i; cbn in *; try discriminate.
+  - now injection H as ->.
+  - now apply IH.
+Qed.
+
+Section Stack.
+Variable t : table.
+Let cols := t_cols t.
+Let rows := t_rows t.
+Definition scol (c : Z) : prop := {| p_vals := PS (column t c); p_miss := None |}.
+
+Lemma stack_fold cs : forall pre,
+  fold_left (fun a q => hstack a (rows_of q)) (map (fun c => PS (column t c)) cs) (map (fun r => map (cell_of cols r) pre) rows)
+  = map (fun r => map (cell_of cols r) (pre ++ cs)) rows.
+Proof.
+  induction cs as [|c cs IH]; intros pre; cbn [map fold_left]; [now rewrite app_nil_r|].
+  unfold rows_of at 2. unfold column. fold cols rows. rewrite hstack_map.
+  replace (map (fun r => map (cell_of cols r) pre ++ [cell_of cols r c]) rows)
+    with (map (fun r => map (cell_of cols r) (pre ++ [c])) rows)
+    by (apply map_ext; intros r; now rewrite map_app).
+  rewrite IH. rewrite <- app_assoc. reflexivity.
+Qed.
+Lemma width_fold cs : forall w, fold_left (fun w q => (w + width_of q)%nat) (map (fun c => PS (column t c)) cs) w = (w + length cs)%nat.
+Proof. induction cs as [|c cs IH]; intros w; cbn; [lia|]. rewrite IH. lia. Qed.
+
+Lemma column_stack_cols c0 cs :
+  column_stack (map (fun c => PS (column t c)) (c0 :: cs))
+  = PV (length (c0 :: cs)) (map (fun r => map (cell_of cols r) (c0 :: cs)) rows).
+Proof.
+  cbn [map column_stack]. f_equal.
+  - cbn [width_of]. rewrite width_fold. reflexivity.
+  - replace (rows_of (PS (column t c0))) with (map (fun r => map (cell_of cols r) [c0]) rows).
+    + rewrite stack_fold. reflexivity.
+    + cbn [rows_of]. unfold column. fold cols rows. rewrite map_map. reflexivity.
+Qed.
+
+Lemma combine_missing_none n (cs : list Z) : combine_missing n (map p_miss (map scol cs)) = None.
+Proof.
+  unfold combine_missing. assert (E : existsb is_some (map p_miss (map scol cs)) = false).
+  { induction cs as [|c cs IH]; [reflexivity|]. cbn. exact IH. }
+  now rewrite E.
+Qed.
+
+(* the combined property of a list mapping whose columns are plain table columns *)
+Lemma comb_of_cols ps c0 cs : (forall c, In c (c0 :: cs) -> lookup c ps = Some (scol c)) ->
+  comb_of ps (c0 :: cs) = {| p_vals := PV (length (c0 :: cs)) (map (fun r => map (cell_of cols r) (c0 :: cs)) rows); p_miss := None |}.
+Proof.
+  intros H. unfold comb_of.
+  assert (E : map (fun c => getd c ps no_prop) (c0 :: cs) = map scol (c0 :: cs)).
+  { apply map_ext_in. intros c Hc. unfold getd. now rewrite (H c Hc). }
+  rewrite E. rewrite combine_missing_none.
+  replace (map p_vals (map scol (c0 :: cs))) with (map (fun c => PS (column t c)) (c0 :: cs)) by (now rewrite map_map).
+  now rewrite column_stack_cols.
+Qed.
+
+Lemma lookup_table_props c : In c cols -> lookup c (table_props t) = Some (scol c).
+Proof.
+  unfold table_props. fold cols. intros H. induction cols as [|x r IH]; [destruct H|]. cbn [map lookup].
+  destruct (Z.eqb_spec c x) as [->|Hn]; [reflexivity|]. apply IH. destruct H as [H|H]; [congruence|exact H].
+Qed.
+Lemma keys_table_props : keys (table_props t) = cols.
+Proof. unfold keys, table_props. rewrite map_map. cbn. apply map_id. Qed.
+
+Lemma value_at_scol c i r : nth_error rows i = Some r -> value_at (scol c) i = Some (VCell (cell_of cols r c)).
+Proof.
+  intros H. unfold value_at, scol. cbn [p_miss p_vals]. f_equal. f_equal. unfold column.
+  now apply (nth_map_error (fun r0 => cell_of (t_cols t) r0 c)).
+Qed.
+Lemma value_at_stacked c0 cs i r : nth_error rows i = Some r ->
+  value_at {| p_vals := PV (length (c0 :: cs)) (map (fun r => map (cell_of cols r) (c0 :: cs)) rows); p_miss := None |} i
+  = Some (VList (map (cell_of cols r) (c0 :: cs))).
+Proof.
+  intros H. unfold value_at. cbn [p_miss p_vals]. f_equal. f_equal.
+  now apply (nth_map_error (fun r0 => map (cell_of cols r0) (c0 :: cs))).
+Qed.
+End Stack.
+
+(* ================= Part 6: CSV ids and edges ================= *)
+Lemma ints_of_Some l : forall zs, ints_of l = Some zs -> l = map CInt zs.
+Proof.
+  induction l as [|c l IH]; intros zs H; cbn in H; [injection H as <-; reflexivity|].
+  destruct c as [z| | |]; cbn in H; try discriminate. destruct (ints_of l) as [zs'|]; [|discriminate].
+  injection H as <-. cbn. f_equal. now apply IH.
+Qed.
+Lemma ints_of_map {A} (rows : list A) (fc : A -> cell) (fi : A -> Z) :
+  (forall r, In r rows -> fc r = CInt (fi r)) -> ints_of (map fc rows) = Some (map fi rows).
+Proof.
+  induction rows as [|r rows IH]; intros H; [reflexivity|]. cbn [map ints_of].
+  rewrite (H r (or_introl eq_refl)). cbn. rewrite IH; [reflexivity|]. intros r' Hr'. apply H. now right.
+Qed.
+
+Lemma uniq_from_incl seen l c : In c (uniq_from seen l) -> In c l.
+Proof.
+  revert seen. induction l as [|x l IH]; intros seen H; [exact H|]. cbn in H.
+  destruct (memc x seen); [right; eapply IH; eauto|]. destruct H as [->|H]; [now left|right; eapply IH; eauto].
+Qed.
+Lemma uniq_from_complete l : forall seen c, In c l -> In c seen \/ In c (uniq_from seen l).
+Proof.
+  induction l as [|x l IH]; intros seen c H; [destruct H|]. cbn.
+  destruct (memc x seen) eqn:E.
+  - destruct H as [->|H]; [left; now apply memc_In|now apply IH].
+  - destruct H as [->|H]; [right; now left|]. destruct (IH (x :: seen) c H) as [[->|H']|H']; [right; now left|now left|right; now right].
+Qed.
+Lemma map_fst_enum l : forall k, map fst (enum_from k l) = l.
+Proof. induction l as [|x l IH]; intros k; cbn; [reflexivity|]. now rewrite IH. Qed.
+Lemma cell_lookup_In c m : In c (map fst m) -> exists k, cell_lookup c m = Some k.
+Proof.
+  induction m as [|[x k] m IH]; [intros []|]. cbn. intros H. destruct (cell_eqb_spec c x) as [->|Hn]; [eauto|].
+  destruct H as [H|H]; [congruence|now apply IH].
+Qed.
+Lemma cell_lookup_Some_In c m k : cell_lookup c m = Some k -> In c (map fst m).
+Proof.
+  induction m as [|[x j] m IH]; [discriminate|]. cbn. destruct (cell_eqb_spec c x) as [->|Hn]; [now left|]. intros H. right. now apply IH.
+Qed.
+Lemma cell_lookup_ge c l : forall k j, cell_lookup c (enum_from k l) = Some j -> k <= j.
+Proof.
+  induction l as [|x l IH]; intros k j H; [discriminate|]. cbn in H.
+  destruct (cell_eqb c x); [injection H as <-; lia|]. apply IH in H. lia.
+Qed.
+Lemma cell_lookup_inj a b l : forall k j, cell_lookup a (enum_from k l) = Some j -> cell_lookup b (enum_from k l) = Some j -> a = b.
+Proof.
+  induction l as [|x l IH]; intros k j Ha Hb; [discriminate|]. cbn in Ha, Hb.
+  destruct (cell_eqb_spec a x) as [->|Hna], (cell_eqb_spec b x) as [->|Hnb].
+  - reflexivity.
+  - injection Ha as <-. apply cell_lookup_ge in Hb. lia.
+  - injection Hb as <-. apply cell_lookup_ge in Ha. lia.
+  - eapply IH; eauto.
+Qed.
+Lemma id_mapping_In ids c : In c ids -> exists k, cell_lookup c (id_mapping ids) = Some k /\ 1 <= k.
+Proof.
+  intros H. unfold id_mapping. destruct (uniq_from_complete ids [] c H) as [[]|H'].
+  destruct (cell_lookup_In c (enum_from 1 (uniq ids))) as [k Hk]; [now rewrite map_fst_enum|].
+  exists k. split; [exact Hk|]. now apply cell_lookup_ge in Hk.
+Qed.
+Lemma id_mapping_notin ids c : ~ In c ids -> cell_lookup c (id_mapping ids) = None.
+Proof.
+  intros H. destruct (cell_lookup c (id_mapping ids)) eqn:E; [|reflexivity]. exfalso. apply H.
+  apply cell_lookup_Some_In in E. unfold id_mapping in E. rewrite map_fst_enum in E. eapply uniq_from_incl; eauto.
+Qed.
+
+Lemma renum_inj t ityp nm a b : (ityp = true -> is_int a = true /\ is_int b = true) ->
+  In a (column t (id_col nm)) -> In b (column t (id_col nm)) -> renum t ityp nm a = renum t ityp nm b -> a = b.
+Proof.
+  intros Hint Ha Hb. unfold renum. destruct ityp.
+  - destruct (Hint eq_refl) as [Ia Ib]. destruct a, b; try discriminate. cbn. congruence.
+  - destruct (id_mapping_In _ _ Ha) as [ka [Ea _]], (id_mapping_In _ _ Hb) as [kb [Eb _]]. rewrite Ea, Eb.
+    intros <-. unfold id_mapping in *. eapply cell_lookup_inj; eauto.
+Qed.
+
+Lemma edge_tuples_map {A} (rows : list A) (fp : A -> cell) (fi : A -> Z) (e : A -> list (Z * Z)) :
+  (forall r, In r rows -> (fp r = CNone /\ e r = []) \/
+     (exists z, fp r = CInt z /\ ((z = -1 /\ e r = []) \/ (z <> -1 /\ e r = [(z, fi r)])))) ->
+  edge_tuples (map fp rows) (map fi rows) = Some (flat_map e rows).
+Proof.
+  induction rows as [|r rows IH]; intros H; [reflexivity|]. cbn [map edge_tuples flat_map].
+  assert (IH' : edge_tuples (map fp rows) (map fi rows) = Some (flat_map e rows)) by (apply IH; intros r' Hr'; apply H; now right).
+  destruct (H r (or_introl eq_refl)) as [[Ep Ee]|[z [Ep [[Ez Ee]|[Ez Ee]]]]]; rewrite Ep, Ee.
+  - exact IH'.
+  - subst z. cbn. exact IH'.
+  - destruct (Z.eqb_spec z (-1)); [contradiction|]. now rewrite IH'.
+Qed.
+
+Lemma nodup_edges_rows {A} (rows : list A) (fi : A -> Z) (e : A -> list (Z * Z)) :
+  NoDup (map fi rows) -> (forall r, In r rows -> e r = [] \/ exists u, e r = [(u, fi r)]) -> NoDup (flat_map e rows).
+Proof.
+  induction rows as [|r rows IH]; intros Hnd He; [constructor|]. cbn [flat_map].
+  cbn [map] in Hnd. inversion Hnd as [|? ? Hn Hd]; subst.
+  assert (IH' : NoDup (flat_map e rows)) by (apply IH; [exact Hd|intros r' Hr'; apply He; now right]).
+  destruct (He r (or_introl eq_refl)) as [E|[u E]]; rewrite E; [exact IH'|]. cbn [app]. constructor; [|exact IH'].
+  intros Hin. apply in_flat_map in Hin. destruct Hin as [r' [Hr' Hin]].
+  destruct (He r' (or_intror Hr')) as [E'|[u' E']]; rewrite E' in Hin; [destruct Hin|]. destruct Hin as [Hin|[]].
+  injection Hin as _ Hf. apply Hn. rewrite <- Hf. now apply in_map.
+Qed.
+
+Lemma structure_ok_rows {A} (rows : list A) (fi : A -> Z) (e : A -> list (Z * Z)) :
+  NoDup (map fi rows) ->
+  (forall r, In r rows -> e r = [] \/ exists u, e r = [(u, fi r)] /\ u <> fi r /\ In u (map fi rows)) ->
+  structure_ok (map fi rows) (flat_map e rows) = true.
+Proof.
+  intros Hnd He. unfold structure_ok. rewrite !andb_true_iff. repeat split.
+  - now apply nodup_z_NoDup.
+  - unfold edges_known. apply forallb_forall. intros [u v] Hin. apply in_flat_map in Hin. destruct Hin as [r [Hr Hin]].
+    destruct (He r Hr) as [E|[u' [E [_ Hu]]]]; rewrite E in Hin; [destruct Hin|]. destruct Hin as [Hin|[]]. injection Hin as <- <-.
+    cbn [fst snd]. apply andb_true_iff. split; apply memz_In; [exact Hu|now apply in_map].
+  - unfold no_self_edges. apply forallb_forall. intros [u v] Hin. apply in_flat_map in Hin. destruct Hin as [r [Hr Hin]].
+    destruct (He r Hr) as [E|[u' [E [Hne _]]]]; rewrite E in Hin; [destruct Hin|]. destruct Hin as [Hin|[]]. injection Hin as <- <-.
+    cbn [fst snd]. apply negb_true_iff. now apply Z.eqb_neq.
+  - apply nodup_pairs_NoDup. apply nodup_edges_rows with (fi := fi); [exact Hnd|].
+    intros r Hr. destruct (He r Hr) as [E|[u [E _]]]; [now left|right; now exists u].
+Qed.
